@@ -17,6 +17,10 @@ def _hlike(e):
     return e != "H" and e[:1] == "H"     # Hg, Ho, He ...: the rule's text does not cover them
 
 
+def _dyadic(a):
+    return all(abs(c) < 2 ** 20 and c * 8.0 == math.floor(c * 8.0) for c in (a.x, a.y, a.z))
+
+
 def reference_pairs(atoms):
     """(set of (i,j) i<j that must be bonded, set of (i,j) that are ties / unjudged)."""
     import numpy as np
@@ -51,7 +55,10 @@ def reference_pairs(atoms):
                 continue
             t = H2 if hc == 1 else (S2 if (is_s[i] and is_s[j]) else D2)
             if abs(d - t) < TIE:
-                skip.add((i, j))
+                if d == t and _dyadic(atoms[i]) and _dyadic(atoms[j]):
+                    contracts.count("exact_ties_judged")      # exact arithmetic: strictly "less than" decides
+                else:
+                    skip.add((i, j))
             elif d < t:
                 must.add((i, j))
     return must, skip
